@@ -12,12 +12,15 @@ import os
 import shutil
 
 from .. import tlc
-from ..absgrammar import alt, call, grammar, opt, plus, rule, seq, star, subexps, tok, to_ebnf
+from ..absgrammar import alt, call, grammar, join, opt, plus, rule, seq, star, subexps, tok, to_ebnf
 from ..common import Check, pmap
 
 
 def options(names):
-    prefixes = [None, opt(tok('x')), star(tok('x')), plus(tok('x')), call('n')]      # n = ['x'] : a rule that can match empty
+    prefixes = [None, opt(tok('x')), star(tok('x')), plus(tok('x')), call('n'),      # n = ['x'] : a rule that can match empty
+                # positive joins / gathers: able to match empty exactly when their ELEMENT is (the separator plays no part)
+                join(tok(','), opt(tok('x')), True, True), join(tok(','), tok('x'), True, True), join(opt(tok(',')), tok('x'), True, False),
+                join(tok(','), opt(tok('x')), True, False), plus(opt(tok('x')))]
     targets = [tok('y')] + [call(n) for n in names]
     out = []
     for p in prefixes:
@@ -46,8 +49,9 @@ def universe(tier, seed):
     B = bodies(names)
     for x, y in itertools.product(B, repeat=2):
         gs.append(with_n(rule('a', x), rule('b', y)))
-    if tier == 'quick':
-        gs = gs[seed % 28::28]
+    # (10 prefixes x 3 targets -> 900 bodies -> 810 000 two-rule grammars: a deterministic slice in both tiers, 1/45 of them in thorough)
+    k2 = max(28, len(gs) // 2600) if tier == 'quick' else max(1, len(gs) // 120000)
+    gs = gs[seed % k2::k2]
     # one-rule grammars: exhaustive in both tiers
     for x in bodies(['a']):
         gs.append(with_n(rule('a', x)))
@@ -55,8 +59,8 @@ def universe(tier, seed):
     # three-rule graphs: a deterministic sample in quick, a large one in thorough
     names3 = ['a', 'b', 'c']
     B3 = bodies(names3)
-    step = 99991 if tier == 'quick' else 1999
     n3 = len(B3) ** 3
+    step = n3 // 640 + 1 if tier == 'quick' else n3 // 32000 + 1
     for k in range(seed % step, n3, step):
         i, r = divmod(k, len(B3) ** 2)
         j, l = divmod(r, len(B3))
@@ -115,7 +119,7 @@ def run_lr_case(case):
     return out
 
 
-BATTERY = ['', 'y', 'xy', 'yy', 'x y y', 'y x y', 'x', 'y y y', 'x x y']
+BATTERY = ['', 'y', 'xy', 'yy', 'x y y', 'y x y', 'x', 'y y y', 'x x y', ', y', 'x , x y', 'x , y', ',', 'x x , y']
 
 
 def guard_family(ck, tier):
